@@ -24,6 +24,11 @@ def Grammar(description, include_source=False):
         source_var='_source_code' if include_source else None,
     )
 
+    if parsed.extends is not None:
+        # The chain of ancestors is the one that exists now, whatever is
+        # installed under these names later.
+        module._parent_grammar = parsed.extends.module
+
     if parsed.name:
         _install_module(name, module)
 
@@ -31,13 +36,14 @@ def Grammar(description, include_source=False):
 
 
 class _ParsedGrammar:
-    def __init__(self, name, extends, body):
+    def __init__(self, name, extends, body, module=None):
         self.name = name
         self.extends = extends
         self.body = body
+        self.module = module
 
 
-def _parse_grammar(description):
+def _parse_grammar(description, module=None, parent_module=None):
     tree = parser.parse(description)
     assert isinstance(tree, parser.GrammarDef)
     head, body = tree.head, tree.body
@@ -57,13 +63,19 @@ def _parse_grammar(description):
     if head is None or head.extends is None:
         extends = None
     else:
-        module = importlib.import_module(head.extends)
-        extends = _parse_grammar(module.__doc__)
+        if parent_module is None:
+            parent_module = importlib.import_module(head.extends)
+        extends = _parse_grammar(
+            parent_module.__doc__,
+            module=parent_module,
+            parent_module=getattr(parent_module, '_parent_grammar', None),
+        )
 
     return _ParsedGrammar(
         name=None if head is None else head.name,
         extends=extends,
         body=body,
+        module=module,
     )
 
 
